@@ -553,6 +553,51 @@ def site_program(*a, **kw):
     return prog
 
 
+# ---- name collisions: a closure that makes a name of its own (loop counter, block local, local assigned from an inner closure, parameter) equal to
+# the name of a variable it also captures; each body: (lines of g's body, parameter list of g, argument text, python model of one call -> (result, new x))
+COLL_BODIES = {
+    "counter-then-inner-closure": (["s = 0", "from 0 to 3, x {", "\ts = s + x", "}", "h = fn() -> int {", "\treturn x", "}", "return h() + s"], "", "", lambda x: (x + 3, x)),
+    "counter-then-read": (["s = 0", "from 0 to 3, x {", "\ts = s + x", "}", "return x + s"], "", "", lambda x: (x + 3, x)),
+    "inner-closure-then-counter": (["h = fn() -> int {", "\treturn x", "}", "r = h()", "s = 0", "from 0 to 3, x {", "\ts = s + x", "}", "return r + s + h()"], "", "", lambda x: (2 * x + 3, x)),
+    "counter-then-modify": (["s = 0", "from 0 to 3, x {", "\ts = s + x", "}", "modify x = x + s", "return x"], "", "", lambda x: (x + 3, x + 3)),
+    "counter-in-block-then-inner-closure": (["s = 0", "if true {", "\tfrom 0 to 3, x {", "\t\ts = s + x", "\t}", "}", "h = fn() -> int {", "\treturn x", "}", "return h() + s"], "", "", lambda x: (x + 3, x)),
+    "block-local-then-inner-closure": (["s = 0", "if true {", "\tx = 1", "\ts = x", "}", "h = fn() -> int {", "\treturn x", "}", "return h() + s"], "", "", lambda x: (x + 1, x)),
+    "while-block-local-then-read": (["s = 0", "w = 0", "while w < 1 {", "\tw = w + 1", "\tx = 2", "\ts = x", "}", "return x + s"], "", "", lambda x: (x + 2, x)),
+    "local-assigned-from-closure-reading-outer": (["x = apply(fn() -> int {", "\treturn x + 1", "})", "return x"], "", "", lambda x: (x + 1, x)),
+    "local-assigned-from-closure-then-inner-read": (["x = apply(fn() -> int {", "\treturn x + 1", "})", "h = fn() -> int {", "\treturn x", "}", "return h()"], "", "", lambda x: (x + 1, x)),
+    "other-local-assigned-from-closure-reading-outer": (["y = apply(fn() -> int {", "\treturn x + 1", "})", "return y"], "", "", lambda x: (x + 1, x)),
+    "parameter-named-like-capture-read": (["return x + 1"], "x: int", "5", lambda x: (6, x)),
+    "parameter-named-like-capture-modify-in-block": (["if x > 3 {", "\tmodify x = x + 100", "}", "return x"], "x: int", "5", lambda x: (5, 105)),
+    "typed-local-then-inner-closure": (["x: int = 4", "h = fn() -> int {", "\treturn x", "}", "return h()"], "", "", lambda x: (4, x)),
+}
+COLL_OWNERS = ("escaped", "alive", "module")
+
+
+def coll_program(body, owner):
+    lines, params, arg, model = COLL_BODIES[body]
+    ind = lambda ls, n: ["\t" * n + l for l in ls]
+    pre = ["apply = fn(cb: fn() -> int) -> int {", "\treturn cb()", "}"]
+    g = [f"g = fn({params}) -> int {{"] + ind(lines, 1) + ["}"]
+    rd = ["rd = fn() -> int {", "\treturn x", "}"]
+    calls = [f"print g({arg})", "print rd()", f"print g({arg})", "print rd()"]
+    if owner == "module":
+        src = pre + ["x = 10"] + g + rd + calls
+    elif owner == "alive":
+        src = pre + ["make = fn() {"] + ind(["x = 10"] + g + rd + calls, 1) + ["}", "make()"]
+    else:
+        gt = f"fn({params.split(': ')[1] if params else ''}) -> int"
+        src = pre + ["make = fn() -> " + gt + " {"] + ind(["x = 10"] + g + ["return g"], 1) + ["}"]
+        # the reader is a second closure made by the same execution: both are handed out through a holder object
+        src = pre + ["class Hold {", "\tg: " + gt, "\trd: fn() -> int", "\tconstructor(self, g: " + gt + ", rd: fn() -> int) {", "\t\tself.g = g", "\t\tself.rd = rd", "\t}", "}",
+                     "make = fn() -> Hold {"] + ind(["x = 10"] + g + rd + ["return Hold(g, rd)"], 1) + ["}", "hh = make()",
+                     f"print hh.g({arg})", "print hh.rd()", f"print hh.g({arg})", "print hh.rd()"]
+    x, exp = 10, []
+    for _ in range(2):
+        r, x = model(x)
+        exp += [str(r), str(x)]
+    return "\n".join(src) + "\n", exp
+
+
 class C07(EHistCheck):
     id = "C07"
     model = ClosureModel()
@@ -587,15 +632,38 @@ class C07(EHistCheck):
         recs = [("site", s, n, o) for s in REC_SITES for n in (1, 2, 3) for o in own]
         typed = [("site", f"{k}@{t}", n, o) for k in TYPED_KINDS for t in TYPED_SITES for n in (1, 2, 3) for o in own]
         snaps = [("site", f"snap:{k}:{w}", n, o) for k in SNAP_SRC for w in SNAP_WHERE for n in (1, 2, 3) for o in own]
-        return [("capture-site-matrix", sites), ("modify-with-a-value-read-out-of-a-container-then-the-slot-or-the-variable-is-written", snaps), ("captured-variable-of-8-declared-types-written-by-modify-with-a-compatible-value", typed), ("capture-site-matrix-after-shadow/self-assign/modify", pre),
+        coll = [("coll", b, o) for b in COLL_BODIES for o in COLL_OWNERS]
+        return [("capture-site-matrix", sites), ("names-of-its-own-that-equal-a-captured-name-(counter,-block-local,-parameter,-local-assigned-from-an-inner-closure)", coll), ("modify-with-a-value-read-out-of-a-container-then-the-slot-or-the-variable-is-written", snaps), ("captured-variable-of-8-declared-types-written-by-modify-with-a-compatible-value", typed), ("capture-site-matrix-after-shadow/self-assign/modify", pre),
                 ("inner-closure-escapes-its-creator", escs), ("recursive-closures-using-captures-after-the-recursive-call", recs)] + ls
 
     def describe(self, case):
+        if case[0] == "coll":
+            return {"collision": case[1], "owner": case[2]}
         if case[0] == "site":
             return {"site": case[1], "nesting": case[2], "owner": case[3]}
         return EHistCheck.describe(self, case)
 
+    def run_coll(self, case):
+        _, body, owner = case
+        src, exp = coll_program(body, owner)
+        res = driver.run_ms(src)
+        detail = {"files": {"x.ms": src}, "res": res.brief(), "expected_lines": exp}
+        sig = {"kind": "", "collision": body, "owner": owner}
+        if driver.compile_rejected(res):
+            # the compiler may refuse a name clash it cannot compile; what it accepts has to run with the captured variable intact
+            return {"outcome": "coll-rejected", "nontrivial": False, "tags": ["coll-rejected"], "show": res.out[-300:]}
+        viol = []
+        if res.exit != 0:
+            sig["kind"] = "unexpected-failure"
+            viol.append({"sig": sig, "what": f"{body} / owner {owner}: exit {res.exit} ({driver.classify_failure(res)}): {res.err[-250:]}", "detail": detail})
+        elif res.lines() != exp:
+            sig["kind"] = "observation"
+            viol.append({"sig": sig, "what": f"{body} / owner {owner}: expected {exp} got {res.lines()}", "detail": detail})
+        return {"outcome": "coll-ok" + ("-DIFF" if viol else ""), "viol": viol, "nontrivial": True, "tags": ["coll"]}
+
     def run_case(self, case):
+        if case[0] == "coll":
+            return self.run_coll(case)
         if case[0] != "site":
             return EHistCheck.run_case(self, case)
         _, site, nesting, owner = case
